@@ -53,6 +53,7 @@ func dev(args []string) {
 	obl := fs.String("obl", "", "obligation prefixes, comma separated")
 	contracts := fs.String("contracts", "default", "contracts to use (comma separated, 'none', 'default')")
 	confine := fs.Bool("confine", false, "confinement mode")
+	jobwall := fs.Duration("jobwall", 0, "wall-clock budget of the job (0 = none)")
 	fs.Parse(args)
 	cfg := map[string]int64{}
 	if *cfgs != "" {
@@ -76,6 +77,7 @@ func dev(args []string) {
 	x.Verbose = *verbose
 	x.NoMerge = *nomerge
 	x.Timeout = *timeout
+	x.JobWall = *jobwall
 	props.SetContracts(x, *contracts)
 	job := &sym.Job{Pkg: *pkg, Harness: *harness, Cfg: cfg, Confine: *confine}
 	if *obl != "" {
